@@ -125,8 +125,20 @@ NAMED_FIELDS = {
 }
 
 
-def require_fields(P):
+FIELDS_USED_BY = {
+    "C05": ["rawdb::layout::Layout"], "C10": ["rawdb::layout::Layout"], "C12": ["rawdb::layout::Layout"],
+    "C09": ["vecdb::variants::compressed::inner::page::Page", "vecdb::variants::compressed::inner::pages::Pages"],
+    "C20": ["vecdb::variants::compressed::inner::page::Page", "vecdb::variants::compressed::inner::pages::Pages"],
+    "C14": ["vecdb::base::header::inner::HeaderInner"], "C19": ["vecdb::base::header::inner::HeaderInner"],
+    "C16": ["vecdb::base::change::cursor::ChangeCursor"], "C17": ["vecdb::base::change::cursor::ChangeCursor"],
+    "C18": ["rawdb::DatabaseInner"],
+}
+
+
+def require_fields(P, pid=None):
     for adt, fields in NAMED_FIELDS.items():
+        if pid is not None and adt not in FIELDS_USED_BY.get(pid, []):
+            continue
         a = P.adts.get(adt)
         if a is None:
             if adt.startswith("vecdb::variants::compressed") and not any(b.startswith("vecdb::variants::compressed") for b in P.bodies):
